@@ -728,7 +728,7 @@ func init() {
 			"the end-of-stream marker of the Phylip parsers is accepted on any input except the unmodified valid seeds",
 			"a CPU loop that never reads and an allocation that kills the process are caught by the master through the marked input (120 s without progress / worker death), not by the read counter",
 		},
-		Tasks:   func(tier string) []mc.Task { return append(c03Tasks(tier), c03AutoTasks()...) },
+		Tasks: func(tier string) []mc.Task { return append(c03Tasks(tier), c03AutoTasks()...) },
 		Replay: func(c *mc.Ctx, payload json.RawMessage) {
 			if !c03AutoReplay(c, payload) {
 				c03Replay(c, payload)
